@@ -1923,7 +1923,7 @@ FINDINGS = [
      "what": "Datatype.parse accepted constructors whose type does not end in the datatype, or with fewer/more/repeated argument names than arguments: "
              "get_extension produced ill-typed theorems, raised, or the editor form failed with IndexError; "
              "an argument named P clashed with the induction predicate (TermException in get_extension)"},
-    {"status": "fixed", "key": "generated:def:edit-roundtrip-rejected", "commit": "fixes/C11-4.patch",
+    {"status": "fixed", "key": "generated:def:edit-roundtrip-rejected", "commit": "f7d4d28",
      "what": "the editor form of a rejected def / def.ind / def.pred / def.ax item gave the type as a list (display_raw), so parse_edit of it failed "
              "with TypeError in parse_type instead of reporting the item's error"},
     {"status": "known", "key": "generated:def.ind:overlapping-rules",
